@@ -163,6 +163,15 @@ func runC11(c *ev.Ctx) {
 		disc += found
 	}
 	c.Count("m_discriminating_contents_found_by_bias_scan", int64(disc))
+	if c.Lite() {
+		var keep []singleCase
+		for i, cs := range cases {
+			if i%6 == 0 {
+				keep = append(keep, cs)
+			}
+		}
+		cases = keep
+	}
 	parallel(len(cases), func(i int) {
 		cs := cases[i]
 		o, bad, msg := evalSingle(cs)
@@ -460,6 +469,15 @@ func runC15(c *ev.Ctx) {
 				cases = append(cases, epCase{sq})
 			}
 		}
+	}
+	if c.Lite() {
+		var keep []epCase
+		for i, cs := range cases {
+			if i%3 == 0 {
+				keep = append(keep, cs)
+			}
+		}
+		cases = keep
 	}
 	parallel(len(cases), func(i int) {
 		cs := cases[i]
